@@ -9,19 +9,20 @@ variable {A V : Type} [DecidableEq A]
 
 /-- writes stay invisible to reads until the next update. -/
 theorem read_write (b : IoBox A V) (a a' : A) (v : V) : (b.write a v).read a' = b.read a' := by
-  sorry
+  rfl
 
 /-- after an update each address holds the most recent write to it — input-port writes
 first, then pending adapter writes, each in issue order — or its previous content. -/
 theorem read_update (b : IoBox A V) (ins : List (A × V)) (a : A) :
     (b.update ins).1.read a = (lastWrite (ins ++ b.buf) a).orElse (fun _ => b.read a) := by
-  sorry
+  simp only [IoBox.update, IoBox.read]
+  exact alookup_applyWrites _ _ _
 
 /-- the update's output lists the writes applied, in application order, and the buffer is
 emptied (a second update applies nothing). -/
 theorem update_output (b : IoBox A V) (ins : List (A × V)) :
     (b.update ins).2 = ins ++ b.buf ∧ (b.update ins).1.buf = [] := by
-  sorry
+  exact ⟨rfl, rfl⟩
 
 /-- reading a never-written address fails, whatever else happened. -/
 theorem read_never_written (ops : List (IoOp A V)) (a : A)
@@ -29,19 +30,19 @@ theorem read_never_written (ops : List (IoOp A V)) (a : A)
       | .write a' _ => a' ≠ a
       | .update ins => ∀ w ∈ ins, w.1 ≠ a) :
     (runBox ops ({} : IoBox A V)).read a = none := by
-  sorry
+  exact runBox_read_none ops a _ rfl (by simp) hw
 
 /-- a second IoBox fed from the first one's update outputs ends up with identical contents,
 for every history. -/
 theorem chained_equal (ops : List (IoOp A V)) :
     (runChained ops (({} : IoBox A V), ({} : IoBox A V))).1.mem =
     (runChained ops (({} : IoBox A V), ({} : IoBox A V))).2.mem := by
-  sorry
+  exact runChained_inv ops _ _ rfl rfl
 
 /-- and the first box of the chained run is just the box run on its own. -/
 theorem chained_fst (ops : List (IoOp A V)) (b1 b2 : IoBox A V) :
     (runChained ops (b1, b2)).1 = runBox ops b1 := by
-  sorry
+  exact runChained_fst ops b1 b2
 
 /-! non-vacuity: two writes to one address between two updates — the later one wins -/
 example : ((({} : IoBox Nat Nat).write 1 10).write 1 20 |>.update [(1, 5)]).1.read 1 = some 20 := by decide
